@@ -278,48 +278,23 @@ def _flatchoice_order(repo, rep):
 
 # --------------------------------------------------------------------------- C04.j
 def _align(repo, rep):
+    """C04.j: align(d) indents the continuation lines of d to the column where d starts, hang(i, d) i columns further, nest(i, d) i
+    columns further than the enclosing indentation.  Decided by the interpreted layout model (C04.n): its documents contain align
+    (nested, inside groups, after text), hang with three amounts and nest with positive, zero and negative amounts, laid out at nine
+    widths; here only the anchors are counted, so that a vanished combinator is not a silent pass."""
     docm = repo.module('doc')
-    al = docm.funcs.get('align')
     n = 0
-    if al is None:
-        raise AnalysisError('doc.align vanished')
-    ev = [f for q, f in docm.funcs.items() if f.parent is al]
+    for name in ('align', 'hang', 'nest'):
+        n += 1
+        rep.check(name in docm.funcs, 'C04.j', '%s:exists' % name, docm.relpath, 'combinator present (behaviour: C04.n)',
+                  'doc.%s vanished' % name)
+    from . import layoutmodel
+    kinds = set()
+    for t in layoutmodel.documents('quick', 0):
+        kinds |= layoutmodel._kinds(t)
     n += 1
-    if len(ev) != 1:
-        rep.fail('C04.j', 'align:evaluator', al.where, 'align no longer defines one contextual evaluator')
-    else:
-        e = ev[0]
-        rets = [r for r in ast.walk(e.node) if isinstance(r, ast.Return) and r.value is not None]
-        ok = False
-        detail = [src(r.value) for r in rets]
-        if len(rets) == 1 and isinstance(rets[0].value, ast.Call) and call_name(rets[0].value) == 'Nest' and len(rets[0].value.args) == 2:
-            try:
-                ok = form(rets[0].value.args[0]) == atom('column').add(atom('indent').scale(-1)) and \
-                    src(rets[0].value.args[1]) == al.params[0]
-            except NotLinear:
-                ok = False
-        rep.check(ok and e.params[:2] == ['indent', 'column'], 'C04.j', 'align:nest-by-column-minus-indent', e.where,
-                  'align nests by (column - indent)',
-                  'align evaluates to %s: continuation lines of an aligned block must be indented to the column where it '
-                  'started, i.e. Nest(column - indent, doc)' % detail, nontrivial=True)
-        n += 1
-        rep.check(any(isinstance(c, ast.Call) and call_name(c) == 'contextual' and src(c.args[0]) == e.name for c in ast.walk(al.node)),
-                  'C04.j', 'align:contextual', al.where, 'align is evaluated at layout time', 'align no longer returns contextual(evaluator)')
-    hg = docm.funcs.get('hang')
-    if hg is not None:
-        n += 1
-        rets = [r for r in ast.walk(hg.node) if isinstance(r, ast.Return) and r.value is not None]
-        t = src(rets[0].value).replace(' ', '').replace('\n', '') if rets else ''
-        rep.check(t in ('align(Nest(%s,validate_doc(%s)))' % (hg.params[0], hg.params[1]), 'align(nest(%s,%s))' % (hg.params[0], hg.params[1]),
-                        'align(Nest(%s,%s))' % (hg.params[0], hg.params[1])),
-                  'C04.j', 'hang:align-of-nest', hg.where, 'hang(i, d) = align(nest(i, d))', 'hang returns %s' % t, nontrivial=True)
-    nf = docm.funcs.get('nest')
-    if nf is not None:
-        n += 1
-        rets = [r for r in ast.walk(nf.node) if isinstance(r, ast.Return) and r.value is not None]
-        t = src(rets[0].value).replace(' ', '') if rets else ''
-        rep.check(t in ('Nest(%s,validate_doc(%s))' % (nf.params[0], nf.params[1]), 'Nest(%s,%s)' % (nf.params[0], nf.params[1])),
-                  'C04.j', 'nest:amount-and-doc', nf.where, 'nest(i, d) = Nest(i, d)', 'nest returns %s' % t, nontrivial=True)
+    rep.check({'align', 'hang', 'nest'} <= kinds, 'C04.j', 'layout-model-covers-align-hang-nest', docm.relpath,
+              'the layout model exercises the three combinators', 'the layout model has no document with %s' % sorted({'align', 'hang', 'nest'} - kinds))
     rep.floor('C04.j', n, 4)
 
 
